@@ -45,14 +45,16 @@ def r1_lex_range(c, facts):
         return sl['locals'], arith, names
     pl, pa, pn = prov(push[0][1]['args'][2])
     il, ia, inn = prov(index[0][1]['args'][1])
-    extra = (pn | inn) - {'clone', 'next', 'into_iter', 'spanned', 'lexer', 'deref', 'as_ref', 'borrow'}
-    if not pa and not ia and (pl & il) and 'next' in pn and 'next' in inn and not extra:
+    # the range is the item of the spanned lexer iterator, or logos' Lexer::span() of the token just scanned
+    extra = (pn | inn) - {'clone', 'next', 'into_iter', 'spanned', 'lexer', 'deref', 'as_ref', 'borrow', 'span'}
+    src = lambda ns: 'next' in ns or 'span' in ns
+    if not pa and not ia and (pl & il) and src(pn) and src(inn) and not extra:
         c.ok(R, {'tokenize': 'push(token, range) and &input[range] use the same lexer item, unmodified'})
     else:
         c.bad(R, 'token-range-altered', 'tokenize stores or slices a range that is not the unmodified range yielded by the lexer (arithmetic=%s, extra calls=%s)' % (pa or ia, sorted(extra)))
     for b, t in spans:
         sl, ar, nn = prov(t['args'][1])
-        if not ar and 'next' in nn and not (nn - {'clone', 'next', 'into_iter', 'spanned', 'lexer', 'deref'}):
+        if not ar and ('next' in nn or 'span' in nn) and not (nn - {'clone', 'next', 'into_iter', 'spanned', 'lexer', 'deref', 'span'}):
             c.ok(R, {'tokenize': 'error span is the lexer error range', 'line': t['ln']})
         else:
             c.bad(R, 'error-span-altered', 'a lexical error span is not the unmodified lexer range (%s:%s)' % (tk.file, t['ln']))
